@@ -289,7 +289,7 @@ impl Run {
                     matched = false;
                     self.fault_used = true;
                 }
-                ("swallow_err", "err") if !self.sh.lock().unwrap().ab.closed => {
+                ("swallow_err", "err") if kind == "InvalidData" => {
                     res = "ok";
                     len = 1;
                     start = self.delivered as i64;
